@@ -5072,7 +5072,6 @@ py_statements = [
 
     dict(
         name="py_descr_native_[]_list",
-        need_numpy = True,
         setter_helper="fill_from_PyObject_{c_type}_{PY_array_arg}",
         setter=[
             "Py_XDECREF({c_var_obj});",
